@@ -12,7 +12,7 @@ pub struct World {
     pub vsel: u64,
 }
 
-pub const AUTO_VERBOSITY_NOTE: &str = "runs whose case does not fix a verbosity use 0 / -v / -vv / -vvv for 70 / 10 / 10 / 10 % of the chains (chosen by a hash of the indexed block hashes, so that partner runs of one case share it); a fifth of the chains write into a dump folder that already holds longer stale temporary files of the same callback; likewise 40 % of the chains are run with the blockchain directory and the dump folder spelled differently on the command line (relative to the working directory, with trailing slashes, with ./ and /../ detours) and TZ set to a far-off zone";
+pub const AUTO_VERBOSITY_NOTE: &str = "runs whose case does not fix a verbosity use 0 / -v / -vv / -vvv for 70 / 10 / 10 / 10 % of the chains (chosen by a hash of the indexed block hashes, so that partner runs of one case share it); a fifth of the chains write into a dump folder that already holds longer stale temporary files of the same callback; a third of the chains run with the release build of the tool; an eighth of the chains run with stdout on a pseudo terminal and an eighth with a shifted wall clock; likewise 40 % of the chains are run with the blockchain directory and the dump folder spelled differently on the command line (relative to the working directory, with trailing slashes, with ./ and /../ detours) and TZ set to a far-off zone";
 
 impl World {
     /// writes the plan into <scratch>/data
@@ -43,6 +43,33 @@ impl World {
                 2 => 3,
                 _ => 0,
             };
+        }
+        // an eighth of the chains run with the tool's stdout on a pseudo terminal, another eighth with the wall clock
+        // shifted by years or set close to the chain's own header times (neither may change any result)
+        if !o.tty && o.pause_on.is_none() && o.inject.is_none() && o.trace.is_none() && (self.vsel >> 33) % 8 == 0 {
+            o.tty = true;
+        }
+        if o.clock_offset.is_none() && (self.vsel >> 41) % 8 == 0 {
+            let now = vpmodel::gen::now_epoch() as i64;
+            let k = (self.vsel >> 44) % 6;
+            o.clock_offset = Some(match k {
+                0 => 86_400 * 365 * 12,
+                1 => -86_400 * 365 * 25,
+                2 => 1_300_000_000 - now + 7200,
+                3 => 1_400_000_000 - now - 7200,
+                4 => 4_000_000_000 - now,
+                _ => 1 - now,
+            });
+        }
+        // a third of the chains run with the release build of the tool (no debug assertions, wrapping arithmetic)
+        if o.bin.is_none() && (self.vsel >> 51) % 3 == 0 {
+            if let Ok(r) = std::env::var("VP_TOOL_BIN_REL_AUTO") {
+                o.bin = Some(std::path::PathBuf::from(r));
+            }
+        }
+        // half of the Bitcoin chains are run without `-c` (Bitcoin is the default coin)
+        if (self.vsel >> 55) % 2 == 0 {
+            o.default_coin = true;
         }
         if o.path_style == 0 {
             o.path_style = match (self.vsel >> 17) % 10 {
